@@ -52,7 +52,9 @@ def check(rep, tier, seed):
     shapes = [sh for sh in shapes if elements(sh) <= 20000]
     rep.coverage["header_length_residues_written"] = len(shapes)
     cases_w, cases_t = [], []
-    for sh in shapes + [[3], [2, 3], [1, 1, 1, 1, 1, 2]]:
+    # sizes around the block sizes a buffering writer might use (1024 and 8192 values = 8 and 64 KiB)
+    blocky = [[1023], [1024], [1025], [2048], [2049], [33, 33], [8192], [8193], [3, 5000], [21, 21, 21]] if True else []
+    for sh in shapes + [[3], [2, 3], [1, 1, 1, 1, 1, 2]] + blocky:
         vals = [random_bits(rng) for _ in range(elements(sh))]
         cases_w.append("npyw %s %s" % (fmt(sh), ",".join(tok(v) for v in vals) if vals else "-"))
         if elements(sh) <= 300:
